@@ -15,7 +15,7 @@ checks = {
  "C06": ("exploration", "exhaustive enumeration of limit × size-boundary ladder × SIZE-parameter variants × backend on live sessions",
          "Each case is a live session with a follow-up transaction; accept/refuse and the store are compared with the rule, with an indifference band between LF and CRLF size.", "Trusted: boundary ladder stands for all sizes.", "3.C06"),
  "C07": ("exploration", "bounded-exhaustive enumeration of store operation sequences + explicit-state search, real stores vs reference model",
-         "Every operation sequence over a colliding 22-op alphabet up to the stated depth is executed on the real mem and file stores and compared step by step with an ordered-mailbox model; deeper layers by explicit-state search on the abstract state; plus every op pair from an 11-message mailbox.", "Trusted: model.Store as the specification; ids abstracted by arrival ordinal; I/O errors outside the model.", "3.C07"),
+         "Every operation sequence over a colliding 23-op alphabet up to the stated depth is executed on the real mem and file stores and compared step by step with an ordered-mailbox model; deeper layers by explicit-state search on the abstract state; plus every op pair from an 11-message mailbox.", "Trusted: model.Store as the specification; ids abstracted by arrival ordinal; I/O errors outside the model.", "3.C07"),
  "C08": ("exploration", "bounded-exhaustive enumeration of sized delivery/removal histories × limit configurations, real stores vs eviction model",
          "All histories of sized adds/removes/purges up to the bound under every combination of cap and size limit are run on the real stores and compared with the eviction model after every step; a crash of the enforcer goroutine is caught as a process crash of the worker.", "Trusted: model.Store eviction rule; mem eviction is synchronous with AddMessage.", "3.C08"),
  "C09": ("model_checking", "stateless DFS over all schedules of the real goroutines under a controlled scheduler (testing/synctest + AST-instrumented sync/channel/go sites + runtime select/map patches), iterative preemption bounding; linearizability of every schedule's history checked with porcupine; free-running -race pass",
@@ -29,7 +29,7 @@ checks = {
  "C13": ("exploration", "bounded-exhaustive enumeration of POP3 command sequences with external mutations as events (full tree + explicit-state search), real session code in synctest bubbles vs POP3 snapshot model; every prefix doubles as the dropped-connection case",
          "All sequences over a 59-element alphabet from the greeting, and a second search from a logged-in session (non-initial state) over the TRANSACTION-state alphabet; STAT/LIST/UIDL/RETR/TOP/DELE/RSET pinned against the login-time snapshot; commit rule checked after every sequence.", "Trusted: AUTHORIZATION-state replies not pinned; synctest; go1.26.8.", "3.C13"),
  "C14": ("exploration", "bounded-exhaustive enumeration of API call sequences mixed with deliveries × mailbox names × backend × base path through the real router and the bundled Go client",
-         "Every sequence over a 34-op alphabet (incl. requests whose client resets the connection after the first body byte); status, body and the store's own state after every call.", "Trusted: percent-encoding client; panics caught at ServeHTTP.", "3.C14"),
+         "Every sequence over a 35-op alphabet (incl. requests whose client resets the connection after the first body byte); status, body and the store's own state after every call.", "Trusted: percent-encoding client; panics caught at ServeHTTP.", "3.C14"),
  "C15": ("model_checking", "bounded-exhaustive hub operation sequences in synctest bubbles vs hub model + stateless DFS over all schedules of hub ∥ dispatcher ∥ healthy listeners ∥ failing/slow/closing real socket listeners",
          "Sequential semantics by exhaustive sequences with the real listeners; failure timing by exhaustive schedules within the preemption bound.", "Trusted: WSWriter replaced by a harness consumer through the verif hook; scheduler assumptions as C09.", "3.C15"),
  "C16": ("model_checking", "bounded-exhaustive histories × limits × backends with events counted at exact quiescence (synctest) + stateless DFS over all schedules of the asynchronous event dispatch with a scheduling point inside the listener body",
